@@ -260,27 +260,35 @@ func (s *Session) handleDATA() error {
 		return s.rejectMessage(554, "5.6.0", fmt.Errorf("message validation failed: %w", err))
 	}
 
-	// Check quota for each recipient (if enabled)
-	if s.config.Delivery.QuotaEnabled {
-		for _, recipient := range s.recipients {
-			username, err := parser.ExtractLocalPart(recipient)
+	// Check quota for each recipient (if enabled). A recipient whose mailbox has no room
+	// for the message is refused with its own reply; the others are delivered
+	overQuota := make(map[string]bool)
+	deliverTo := make([]string, 0, len(s.recipients))
+	for _, recipient := range s.recipients {
+		if s.config.Delivery.QuotaEnabled {
+			err := s.storage.CheckRecipientQuota(recipient, msg.Size, s.config.Delivery.QuotaLimit)
 			if err != nil {
+				log.Printf("Quota check failed for %s: %v", recipient, err)
+			}
+			if errors.Is(err, storage.ErrQuotaExceeded) {
+				overQuota[recipient] = true
 				continue
 			}
-
-			if err := s.storage.CheckQuota(username, msg.Size, s.config.Delivery.QuotaLimit); err != nil {
-				log.Printf("Quota check failed for %s: %v", recipient, err)
-				// Continue with other recipients
-			}
+			// Any other error: the delivery reports what is wrong with this recipient
 		}
+		deliverTo = append(deliverTo, recipient)
 	}
 
 	// Deliver to each recipient (LMTP requires per-recipient response)
 	folder := s.config.Delivery.DefaultFolder
-	results := s.storage.DeliverToMultipleRecipients(s.recipients, msg, folder)
+	results := s.storage.DeliverToMultipleRecipients(deliverTo, msg, folder)
 
 	// Send per-recipient responses
 	for _, recipient := range s.recipients {
+		if overQuota[recipient] {
+			_ = s.sendResponse(552, "5.2.2 <%s> mailbox full", recipient)
+			continue
+		}
 		if err := results[recipient]; err != nil {
 			log.Printf("Delivery failed for %s: %v", recipient, err)
 			_ = s.sendResponse(550, "5.3.0 Delivery failed for <%s>: %v", recipient, err)
